@@ -60,6 +60,19 @@ CHECKS = {
                      'declaration order are symbolic, and one prefix is bound to different namespaces in different files. z3 decides per path whether a field type '
                      'or an inherited member list belongs to the namespace the prefix denotes.',
                 note='trusted: SMI environment models; two namespaces / two files; complexType references only (message parts: C05)'),
+    'C03': dict(engine='E2-smi', cat='other', design='4/C03',
+                technique='symbolic execution of reader + emitter MIR; z3 decides the annotation obligations (prefix bound in the containing struct, unqualified attributes, rename) per path',
+                text='Claimed at annotation level only: the XML itself is produced by yaserde/xml-rs at run time, out of reach of both engines. zeep determines the wire format only '
+                     'through the yaserde attributes it emits; SMI runs reader and emitters symbolically over six schema families (incl. ref= to another namespace with symbolic '
+                     'adversarial URIs, inheritance across namespaces) and z3 decides per path whether some assignment violates: rename = declared name; element prefix bound, in '
+                     'the containing struct\'s namespaces map, to the declaring namespace; attributes unqualified; struct-level prefix/rename/namespaces name the component.',
+                note='trusted: yaserde 0.12 attribute semantics; SMI environment models; lexical forms, escaping, occurrence on the wire are outside'),
+    'C10': dict(engine='E2-smi', cat='model_checking', design='4/C10',
+                technique='symbolic execution of namespace registration / abbreviation / merge MIR with symbolic adversarial URIs; z3 per-path injectivity queries; native replay',
+                text='Four namespace URIs (target of the start file, referenced-only xmlns, target of an imported file, nested xmlns) range symbolically over adversarial URIs; the MIR of '
+                     'add_namespace_reference, switch_to_target_namespace, make_abbreviated_namespace, RustDocument::extend and the module/attribute emitters is executed and z3 '
+                     'decides per path whether prefix<->URI<->module is a bijection over everything emitted, each module is declared once and every field prefix is declared.',
+                note='trusted: SMI environment models; <= 4 namespaces over 5 (quick) / 8 (thorough) URIs; three known findings (cross-file abbreviation) are keyed by assertion + origin class'),
 }
 
 NA = {
@@ -67,7 +80,7 @@ NA = {
     'C04': 'deserialization and round-trip are executed by yaserde derive expansion and xml-rs at run time (fmt/dyn/heap); CBMC cannot get through it and the MIR interpreter covers zeep, not yaserde',
     'C18': 'Send/Sync are auto-trait facts computed by rustc from the coroutine layout, not properties of executions a bounded symbolic run can falsify',
 }
-PENDING = ['C03', 'C05', 'C07', 'C10', 'C13', 'C14', 'C16', 'C17']
+PENDING = ['C05', 'C07', 'C13', 'C14', 'C16', 'C17']
 
 
 def main():
